@@ -405,6 +405,7 @@ class SymCtx:
     def check(self, b, label, known=(), detail=None):
         """Obligation: b must hold on this path for all inputs. known = [(finding_id, region)]."""
         from .values import SymBool, as_bool_expr
+        detail = _plain(detail)
         self.reached[label] = self.reached.get(label, 0) + 1
         self.stats.obligations += 1
         e = as_bool_expr(b)
@@ -500,6 +501,19 @@ class SymCtx:
             if v == i:
                 return i
         return n - 1
+
+
+def _plain(d, depth=0):
+    """Details travel between processes and into JSON: keep only plain data (proxies become their repr)."""
+    if d is None or isinstance(d, (bool, int, float, str)):
+        return d
+    if depth > 6:
+        return repr(d)[:200]
+    if isinstance(d, dict):
+        return {str(k): _plain(v, depth + 1) for k, v in d.items()}
+    if isinstance(d, (list, tuple)):
+        return [_plain(v, depth + 1) for v in d]
+    return repr(d)[:300]
 
 
 def _rv(x):
